@@ -25,14 +25,14 @@ cp $DEMO tests/seed_demo.rs
 H=$(git rev-parse --short HEAD)
 if [ ! -f /tmp/seed-baseline-$H.txt ]; then
   rm tests/seed_demo.rs
-  cargo test --offline --no-fail-fast 2>&1 | grep -E "^test .* \.\.\. (ok|FAILED|ignored)" | sort > /tmp/seed-baseline-$H.txt
+  cargo test --offline --no-fail-fast 2>&1 | grep -E "^test .* \.\.\. (ok|FAILED|ignored)" | sed "s/ (line [0-9]*)//" | sort > /tmp/seed-baseline-$H.txt
   cp $DEMO tests/seed_demo.rs
 fi
 timeout 1200 cargo test --offline --test seed_demo > $OUT/demo_unpatched.log 2>&1; rc_clean=$?
 if ! git apply $SRC/patch.diff 2> $OUT/apply.log; then echo "$P-$L: patch does not apply"; rc_apply=1; else rc_apply=0; fi
 timeout 1200 cargo test --offline --test seed_demo > $OUT/demo_patched.log 2>&1; rc_patched=$?
 rm -f tests/seed_demo.rs
-cargo test --offline --no-fail-fast 2>&1 | grep -E "^test .* \.\.\. (ok|FAILED|ignored)" | sort > $OUT/suite_patched.txt
+cargo test --offline --no-fail-fast 2>&1 | grep -E "^test .* \.\.\. (ok|FAILED|ignored)" | sed "s/ (line [0-9]*)//" | sort > $OUT/suite_patched.txt
 if diff -q /tmp/seed-baseline-$H.txt $OUT/suite_patched.txt >/dev/null; then suite_same=true; else suite_same=false; fi
 # the check, on the patched tree
 cd /tmp/wt/verif-seed
